@@ -409,6 +409,15 @@ def run_job(job: dict) -> dict:
                 t.write_text("changed marker\n")
             elif existing == "stale_extra":
                 (out / "models" / "zz_stale.py").write_text("STALE = True\n")
+        # where the process keeps its temporary files is part of the environment: "hidden" = below a dot-directory (~/.cache/tmp style),
+        # "spaced" = a path with a blank and non-ASCII characters
+        import tempfile as _tf
+        saved_tmp = (_tf.tempdir, os.environ.get("TMPDIR"))
+        if job.get("tmpdir") in ("hidden", "spaced"):
+            td = base / ("home/.cache/tmp" if job["tmpdir"] == "hidden" else "my tmp dir é")
+            td.mkdir(parents=True, exist_ok=True)
+            _tf.tempdir = str(td)
+            os.environ["TMPDIR"] = str(td)
         before = snapshot(root)
         cg, saved = install_stage_wrappers(job.get("fault", "none"))
         STATE.update({"phase": "pre", "events": [], "stage": "none", "fault": job.get("fault", "none"), "writes_in_stage": 0, "fired": False, "on": True})
@@ -417,6 +426,11 @@ def run_job(job: dict) -> dict:
         finally:
             STATE["on"] = False
             uninstall(cg, saved)
+            _tf.tempdir = saved_tmp[0]
+            if saved_tmp[1] is None:
+                os.environ.pop("TMPDIR", None)
+            else:
+                os.environ["TMPDIR"] = saved_tmp[1]
         after = snapshot(root)
         ev = [e for e in STATE["events"]]
         res.update({"result": result, "err": err, "fault_fired": STATE["fired"], "events": thin(ev), "nevents": len(ev), "delta": thin(delta(before, after, root)), "tree": hashlib.sha256(json.dumps({k: v[:3] for k, v in after.items() if "__pycache__" not in k}, sort_keys=True).encode()).hexdigest()})
